@@ -122,12 +122,20 @@ def run(tier, rep):
             _report(rep, "deep_G1_d2", out_d2, 2)
         # line-level granularity (G2): the check-then-act windows inside stop()/_async_step are one or two bytecode lines wide
         l0 = {k: v for k, v in g2.items() if k[0] == "L0"}
-        l0_run = {k: v for k, v in l0.items() if k[1] == "r."}
-        bound_run = 2 if tier == "quick" else 3
-        out_g = explore_many(pool, l0_run, bound_run, JUDGE)
-        _report(rep, "G2_line_level_L0_run_stop", out_g, bound_run)
-        out_g = explore_many(pool, {k: v for k, v in l0.items() if k not in l0_run}, 1 if tier == "quick" else 2, JUDGE)
-        _report(rep, "G2_line_level_L0_other", out_g, 1 if tier == "quick" else 2)
+        # L0 (user thread + one worker): ALL schedules at line granularity, no deviation bound, pruned by abstract state
+        # (program counters of both threads + shared handshake state with saturating counters, vf/asyncx._digest)
+        from vf.explore import explore_stateful_bfs
+
+        l0_all = {k: v for k, v in l0.items() if k[2] == "prio"}  # the base policy only orders the search here
+        out_s = explore_stateful_bfs(pool, l0_all, JUDGE, cap=20000 if tier == "quick" else 80000)
+        _report(rep, "G2_stateful_L0_all_schedules", out_s, "unbounded (state-pruned)")
+        rep.section("G2_stateful_L0_all_schedules", abstract_states=sum(st["abstract_states"] for st in out_s.values()), pruned_revisits=sum(st["pruned"] for st in out_s.values()))
+        if tier == "thorough":  # the same job without relying on the abstraction: deviation-bounded
+            l0_run = {k: v for k, v in l0.items() if k[1] == "r."}
+            out_g = explore_many(pool, l0_run, 3, JUDGE)
+            _report(rep, "G2_line_level_L0_run_stop", out_g, 3)
+            out_g = explore_many(pool, {k: v for k, v in l0.items() if k not in l0_run}, 2, JUDGE)
+            _report(rep, "G2_line_level_L0_other", out_g, 2)
         rest = {k: v for k, v in g2.items() if k[0] != "L0"}
         # a new episode after a stop() that was preempted at line level (state flips vs queued _stopping tasks)
         rest2 = {k: v for k, v in rest.items() if k[1] in ("R.R.", "r.r.")}
